@@ -12,13 +12,17 @@ EXPLANATION = (
     "with a kernel-checked witness that the hypothesis is necessary; "
     "registry_dedup / getOrCreate_handle / _prefix / _idem: the structural model of internal/registry.TypeRegistry.GetOrCreate "
     "keeps the arena free of duplicates for every request sequence, returns a handle denoting the requested type, never changes "
-    "existing handles, and is idempotent; tied to the real registry (verif hook) by request sequences biased towards key "
-    "collisions. The IR contract itself is decided per instance by an executable strict validator written in Lean (Naga.Sem.IRValid + IRTyping, modelled on upstream naga's valid:: rules and "
+    "existing handles, and is idempotent; the dedup key itself is modelled character for character (Naga.Model.RegKey.keyOf) and "
+    "proved injective on identifier-named requests by a decoder round trip (Props/RegKey: decode_keyOf, keyOf_injective), so that "
+    "looking a request up by key is looking it up by structure (getOrCreateK_eq_getOrCreate); tied to the real registry (verif "
+    "hooks) by request sequences over every TypeInner kind with adversarial digit-resplit twins: handles, arena size and every "
+    "key string must equal the model's. The IR contract itself is decided per instance by an executable strict validator written in Lean (Naga.Sem.IRValid + IRTyping, modelled on upstream naga's valid:: rules and "
     "independent of naga-go's validator): handles in range and backwards (types, constants, globals, locals, functions, "
     "expressions, global expressions), emit ranges inside the arena / non-overlapping / free of pre-emit kinds, every expression "
     "available (emitted earlier in an enclosing block, or constant, or call result after its call) at each use, break/continue/"
     "return placement, no abstract type or literal left, structurally equal anonymous types unique, every function with a result "
-    "returning on all paths, recorded ExpressionTypes equal to types inferred from the operands (Core kinds, shape level). It runs "
+    "returning on all paths, recorded ExpressionTypes equal to types inferred from the operands (Core kinds, shape level), stores / "
+    "calls / atomic statements / workgroupUniformLoad type-correct against the recorded types. It runs "
     "on the module the real front end returns for generated compute programs, generated multi-entry-point modules and corpus "
     "shaders; naga's own validator must accept the module too. A module that fails a rule is the concrete failing input.")
 ASSUMPTIONS = [
